@@ -92,6 +92,20 @@ def gen(chk):
             scr = b"\x00" + push(s) + b"\x51" + b"".join(push(k) for k in ks) + b"\x53\xae"
             # (under DERSIG/LOW_S/STRICTENC the mock signature is refused while it is tried against the unmocked keys that come first)
             sc("opcodes", scr, "%s:%s" % (ts, tp), fl, sv, label=("listed" if fl in (0, 1 << 14) else None))
+    # --- a listed pair with an EMPTY public key (or an empty signature): a signature that is not the listed one must not be accepted for it,
+    #     and looking a signature up must not add it to the table
+    for _ in range(12 if q else 200):
+        (ts, s), (ts2, s2) = rng.sample(TOKS, 2)
+        sv = rng.choice([0, 1]); fl = rng.choice(fl_sets)
+        op = rng.choice(["cs", "csv", "cms"])
+        def script0(sig, key, op):
+            if op == "cs": return push(sig) + push(key) + b"\xac"
+            if op == "csv": return push(sig) + push(key) + b"\xad\x51"
+            return b"\x00" + push(sig) + b"\x51" + push(key) + b"\x51\xae"
+        sc("opcodes", script0(s2, b"", op), "%s:0x" % ts, fl, sv, label="othersig")
+        sc("opcodes", script0(s, b"", op), "%s:0x" % ts, fl, sv, label="listed")
+        sc("opcodes", script0(s2, b"", op) + script0(s2, b"", "cs"), "%s:0x" % ts, fl & ~(1 << 14), sv, label="othersig")       # the same unlisted signature twice
+        sc("opcodes", script0(b"", b"pub1", op), "0x:pub1", fl, sv, label=None)
     # --- two listed pairs in a multisig: each signature counts for its own key only, in order
     for _ in range(30 if q else 400):
         (ta, sa), (tb, sb) = rng.sample(TOKS, 2)
